@@ -191,6 +191,16 @@ func crashScenarios(r *rng, tier string) []crashScenario {
 			p.dud("", "commit", "--copy")
 			must(os.WriteFile(filepath.Join(p.Root, "data", "sub", "inner"), []byte("inner changed"), 0o644))
 		}),
+		mk("commit dir sharing content with an already committed object", []string{"commit", "t.yaml"}, nil, func(p *Project, r *rng) {
+			fileStage(p, r)
+			p.dud("", "commit")
+			shared, _ := os.ReadFile(cachePathOf(p.CacheDir, p.observe().Cache[0].Digest))
+			must(os.MkdirAll(filepath.Join(p.Root, "more"), 0o755))
+			must(os.WriteFile(filepath.Join(p.Root, "more", "same-bytes.bin"), shared, 0o644))
+			must(os.WriteFile(filepath.Join(p.Root, "more", "other.txt"), []byte("other"), 0o644))
+			p.writeStage("t.yaml", &StageRec{Out: []Art{{Path: "more", IsDir: true}}})
+			p.dud("", "stage", "add", "t.yaml")
+		}),
 		mk("checkout dir link", []string{"checkout"}, nil, func(p *Project, r *rng) {
 			dirStage(p, r)
 			p.dud("", "commit")
@@ -314,11 +324,11 @@ func runCrash(o *opts, fault bool) {
 			rc, _ := runMon(pk, sc.env, filepath.Join(base, "k.log"), mode, sc.args)
 			W := pk.observe()
 			id++
-			specs := want(40, 41, 42)
+			specs := want(40, 41, 42, 48)
 			var R *World
 			retryOK := false
 			if fault {
-				specs = want(40, 41, 43, 44, 45, 46, 47)
+				specs = want(40, 41, 43, 44, 45, 46, 47, 48)
 				// the cause (a transient error) is gone: retry the same command
 				res := pk.dud("", sc.args...)
 				// stray temp files in the cache root are allowed
